@@ -468,6 +468,17 @@ def run(prog, rep, tier):
     check_normalised_qtotal(prog, rep)
     check_stale_extension(prog, rep)
     check_decorator(prog, rep)
+    from ..twins import check_regions, check_skip_transpose
+    pyx = load_pyx(prog)
+    check_regions(prog, rep, pairs, pyx)
+    units = []
+    for rel, q, f, repl in pairs:
+        units.append((prog.module(rel), q, f))
+        if pyx.has_func(repl):
+            units.append((pyx, repl, pyx.func(repl)))
+    check_skip_transpose(rep, units)
+    rep.floor('PAIR-regions', 15)
+    rep.floor('PAIR-skip-transpose', 2)
     rep.floor('PAIR-exists', 16)
     rep.floor('PAIR-effects', 16)
     rep.assumptions += ['numerical equality of the two implementations is NOT decided',
